@@ -74,13 +74,14 @@ def FieldRunQ (f : CField) (qualNames : List Str) (tailP : Addr → List Contain
       Exact (walkQualifiers j5Env (fieldQuals f) (typeScope outer (tcfOf f d) root) (kindSpec f)) d
         (freshMsg (kindSchema f)) (sc2, spec2) qv
 
-/-- the body lines of `f`, from `qv` to `tv`, however they reach the type block -/
+/-- the body lines of `f` (not as a directly typed entity key: `entityKey = false`), from `qv` to `tv`,
+however they reach the type block -/
 def FieldRunB (f : CField) (bodyNames blockNames : List Str) (tailP : Addr → List ContainerField → Prop)
     (qv tv : Node) : Prop :=
-  ∀ (sc : Scope) (pfx : List Str) (ek : Bool) (a b : Addr) (C : Option Node → Node),
+  ∀ (sc : Scope) (pfx : List Str) (a b : Addr) (C : Option Node → Node),
     BodyReach sc pfx (kindSchema f) (kindSpec f) a b C (· ∈ bodyNames) →
     ScopeAt sc (tcfOf f (a ++ b)) blockNames (tailP (a ++ b)) →
-    Exact (doBody j5Env sc (fieldBody f pfx ek)) a (C (some qv)) () (C (some tv))
+    Exact (doBody j5Env sc (fieldBody f pfx false)) a (C (some qv)) () (C (some tv))
 
 /-- every name a field's qualifiers / body lines look up first (the blocks a field is written in — property,
 entity key, array / map — must not know them) -/
@@ -148,11 +149,7 @@ def fieldOk2 : CField → Bool
   | .integer fmt rules l => !l && rulesOk j5Env (typeSchema (.integer fmt rules l)) rules
   | .float fmt rules l => !l && rulesOk j5Env (typeSchema (.float fmt rules l)) rules
   | .key fmt ek rules l =>
-    !l && rulesOk j5Env (typeSchema (.key fmt ek rules l)) rules && keyFmtOk fmt &&
-      (match ek with
-       | .nokey => true
-       | .ek .plain none => true
-       | _ => false)
+    !l && rulesOk j5Env (typeSchema (.key fmt ek rules l)) rules && keyFmtOk fmt && entKeyOk ek
   | _ => false
 
 /-- the slot of the `rules` property -/
